@@ -58,7 +58,9 @@ pub struct Case {
 const NO_REPLY_FUNCS: [u8; 5] = [0, 6, 8, 10, 12];
 
 fn crob_objs(n: u8) -> Vec<(u8, Vec<u8>)> {
-    (0..n.max(1)).map(|i| (i % 4, ra::crob(3, 1, 100, 100, 0))).collect()
+    (0..n.max(1))
+        .map(|i| (i % 4, ra::crob(3, 1, 100, 100, 0)))
+        .collect()
 }
 
 /// headers the function accepts (per the function table of IEEE 1815 and the outstation's documented support)
@@ -79,14 +81,22 @@ fn acceptable(func_code: u8, pick: u8, n: u8) -> Option<Vec<u8>> {
             1 => ra::h_count8(50, 1, 1, &ra::u48(1_700_000_000_000)),
             _ => ra::h_prefixed8(34, 1, &[(0, vec![5, 0])]),
         },
-        func::SELECT | func::OPERATE | func::DIRECT_OPERATE | func::DIRECT_OPERATE_NR => match pick % 3 {
-            0 | 1 => ra::h_prefixed8(12, 1, &crob_objs(n)),
-            _ => ra::h_prefixed8(41, 2, &(0..n).map(|i| (i % 4, vec![i, 0, 0])).collect::<Vec<_>>()),
-        },
-        func::IMMED_FREEZE | func::IMMED_FREEZE_NR | func::FREEZE_CLEAR | func::FREEZE_CLEAR_NR => match pick % 2 {
-            0 => ra::h_all(20, 0),
-            _ => ra::h_range8(20, 0, 0, n % 4, &[]),
-        },
+        func::SELECT | func::OPERATE | func::DIRECT_OPERATE | func::DIRECT_OPERATE_NR => {
+            match pick % 3 {
+                0 | 1 => ra::h_prefixed8(12, 1, &crob_objs(n)),
+                _ => ra::h_prefixed8(
+                    41,
+                    2,
+                    &(0..n).map(|i| (i % 4, vec![i, 0, 0])).collect::<Vec<_>>(),
+                ),
+            }
+        }
+        func::IMMED_FREEZE | func::IMMED_FREEZE_NR | func::FREEZE_CLEAR | func::FREEZE_CLEAR_NR => {
+            match pick % 2 {
+                0 => ra::h_all(20, 0),
+                _ => ra::h_range8(20, 0, 0, n % 4, &[]),
+            }
+        }
         func::ENABLE_UNSOLICITED | func::DISABLE_UNSOLICITED => ra::h_all(60, 2 + pick % 3),
         _ => return None,
     })
@@ -116,7 +126,10 @@ fn wrong_for_function(func_code: u8, pick: u8) -> Option<Vec<u8>> {
             1 => ra::h_all(1, 0),
             _ => ra::h_all(30, 0),
         },
-        func::COLD_RESTART | func::WARM_RESTART | func::DELAY_MEASURE | func::RECORD_CURRENT_TIME => ra::h_all(60, 1),
+        func::COLD_RESTART
+        | func::WARM_RESTART
+        | func::DELAY_MEASURE
+        | func::RECORD_CURRENT_TIME => ra::h_all(60, 1),
         _ => return None,
     })
 }
@@ -138,7 +151,10 @@ fn build_header(func_code: u8, h: &HSpec) -> (Vec<u8>, HKind) {
         }
         HKind::UnknownQualifier => {
             let qs = [0x02u8, 0x09, 0x2F, 0x5C, 0x80, 0xFF, 0x18];
-            (vec![1, 2, qs[h.pick as usize % qs.len()], 0, 0], HKind::UnknownQualifier)
+            (
+                vec![1, 2, qs[h.pick as usize % qs.len()], 0, 0],
+                HKind::UnknownQualifier,
+            )
         }
         HKind::Truncated => {
             // a header whose declared objects are missing
@@ -177,7 +193,14 @@ impl Prop for Replies {
         }
     }
     fn floors() -> Vec<(&'static str, u32)> {
-        vec![("mixed_headers", 40), ("no_reply_function", 30), ("state:SolWait", 40), ("state:UnsolWaitData", 20), ("state:UnsolWaitNull", 20), ("echo_exceeds_tx", 2)]
+        vec![
+            ("mixed_headers", 40),
+            ("no_reply_function", 30),
+            ("state:SolWait", 40),
+            ("state:UnsolWaitData", 20),
+            ("state:UnsolWaitNull", 20),
+            ("echo_exceeds_tx", 2),
+        ]
     }
     fn strategy(_tier: Tier) -> BoxedStrategy<Case> {
         let kind = prop_oneof![
@@ -187,7 +210,8 @@ impl Prop for Replies {
             1 => Just(HKind::UnknownQualifier),
             1 => Just(HKind::Truncated),
         ];
-        let hspec = (kind, any::<u8>(), prop_oneof![4 => 1u8..4, 1 => 1u8..=120]).prop_map(|(kind, pick, n)| HSpec { kind, pick, n });
+        let hspec = (kind, any::<u8>(), prop_oneof![4 => 1u8..4, 1 => 1u8..=120])
+            .prop_map(|(kind, pick, n)| HSpec { kind, pick, n });
         let function = prop_oneof![
             8 => prop_oneof![Just(1u8), Just(2), Just(3), Just(4), Just(5), Just(6), Just(7), Just(8), Just(9), Just(10), Just(11), Just(12), Just(13), Just(14), Just(20), Just(21), Just(23), Just(24), Just(0)],
             1 => 15u8..=33,
@@ -197,7 +221,21 @@ impl Prop for Replies {
             8 => Just((true, true, false, false)),
             1 => (any::<bool>(), any::<bool>(), any::<bool>(), any::<bool>()),
         ];
-        let req = (function, flags, 0u8..16, proptest::collection::vec(hspec, 0..=4)).prop_map(|(func, (fir, fin, con, uns), seq, headers)| Req { func, fir, fin, con, uns, seq, headers });
+        let req = (
+            function,
+            flags,
+            0u8..16,
+            proptest::collection::vec(hspec, 0..=4),
+        )
+            .prop_map(|(func, (fir, fin, con, uns), seq, headers)| Req {
+                func,
+                fir,
+                fin,
+                con,
+                uns,
+                seq,
+                headers,
+            });
         let state = prop_oneof![3 => Just(State::Idle), 2 => Just(State::SolWait), 1 => Just(State::UnsolWaitNull), 1 => Just(State::UnsolWaitData)];
         (
             prop_oneof![3 => Just(249u16), 1 => Just(300u16), 1 => Just(2048u16), 2 => 249u16..=2048],
@@ -237,7 +275,10 @@ impl<'a> Checker<'a> {
                 Tx::Link { .. } => {}
                 Tx::Fragment { bytes, dst, .. } => {
                     if dst != MASTER_ADDR {
-                        self.out.fail(Fail::new("wrong-destination", format!("fragment sent to link address {dst}")));
+                        self.out.fail(Fail::new(
+                            "wrong-destination",
+                            format!("fragment sent to link address {dst}"),
+                        ));
                     }
                     // (e) parses cleanly: library parser and reference walker
                     let lib_ok = match ParsedFragment::parse(ParseOptions::default(), &bytes) {
@@ -245,33 +286,61 @@ impl<'a> Checker<'a> {
                         Err(_) => false,
                     };
                     if !lib_ok {
-                        self.out.fail(Fail::new("reply-does-not-parse", format!("the library's own parser rejects the transmitted fragment {:02x?}", &bytes[..bytes.len().min(40)])));
+                        self.out.fail(Fail::new(
+                            "reply-does-not-parse",
+                            format!(
+                                "the library's own parser rejects the transmitted fragment {:02x?}",
+                                &bytes[..bytes.len().min(40)]
+                            ),
+                        ));
                     }
                     let f = match Fragment::parse(&bytes) {
                         Some(f) => f,
                         None => {
-                            self.out.fail(Fail::new("reply-does-not-parse", "fragment shorter than an application response header"));
+                            self.out.fail(Fail::new(
+                                "reply-does-not-parse",
+                                "fragment shorter than an application response header",
+                            ));
                             continue;
                         }
                     };
                     match f.headers() {
                         Ok(_) => {}
                         Err(WalkErr::Undefined(..)) => self.out.label("reference_abstains"),
-                        Err(e) => self.out.fail(Fail::new("reply-does-not-parse", format!("reference walker: {:?} on {:02x?}", e, &bytes[..bytes.len().min(60)]))),
+                        Err(e) => self.out.fail(Fail::new(
+                            "reply-does-not-parse",
+                            format!(
+                                "reference walker: {:?} on {:02x?}",
+                                e,
+                                &bytes[..bytes.len().min(60)]
+                            ),
+                        )),
                     }
                     match f.func {
                         func::RESPONSE => {
                             if f.uns {
-                                self.out.fail(Fail::new("solicited-with-uns", "solicited response with the UNS bit"));
+                                self.out.fail(Fail::new(
+                                    "solicited-with-uns",
+                                    "solicited response with the UNS bit",
+                                ));
                             }
                             if bytes.len() > self.case.sol_tx as usize {
-                                self.out.fail(Fail::new("reply-exceeds-tx-size", format!("solicited response of {} bytes, configured {}", bytes.len(), self.case.sol_tx)));
+                                self.out.fail(Fail::new(
+                                    "reply-exceeds-tx-size",
+                                    format!(
+                                        "solicited response of {} bytes, configured {}",
+                                        bytes.len(),
+                                        self.case.sol_tx
+                                    ),
+                                ));
                             }
                             let ok = if f.fir {
                                 req_seq == Some(f.seq)
                             } else {
                                 match &self.last_sol {
-                                    Some((prev, confirmed)) => !prev.fin && *confirmed && f.seq == (prev.seq + 1) & 0x0F,
+                                    Some((prev, confirmed)) => {
+                                        !prev.fin && *confirmed && f.seq == (prev.seq + 1) & 0x0F
+                                    }
                                     None => false,
                                 }
                             };
@@ -285,10 +354,23 @@ impl<'a> Checker<'a> {
                         }
                         func::UNSOLICITED_RESPONSE => {
                             if !(f.uns && f.fir && f.fin && f.con) {
-                                self.out.fail(Fail::new("unsolicited-flags", format!("unsolicited response with uns={} fir={} fin={} con={}", f.uns, f.fir, f.fin, f.con)));
+                                self.out.fail(Fail::new(
+                                    "unsolicited-flags",
+                                    format!(
+                                        "unsolicited response with uns={} fir={} fin={} con={}",
+                                        f.uns, f.fir, f.fin, f.con
+                                    ),
+                                ));
                             }
                             if bytes.len() > self.case.unsol_tx as usize {
-                                self.out.fail(Fail::new("reply-exceeds-tx-size", format!("unsolicited response of {} bytes, configured {}", bytes.len(), self.case.unsol_tx)));
+                                self.out.fail(Fail::new(
+                                    "reply-exceeds-tx-size",
+                                    format!(
+                                        "unsolicited response of {} bytes, configured {}",
+                                        bytes.len(),
+                                        self.case.unsol_tx
+                                    ),
+                                ));
                             }
                             if let Some(prev) = &self.last_unsol {
                                 let prev_seq = prev[0] & 0x0F;
@@ -303,7 +385,10 @@ impl<'a> Checker<'a> {
                             }
                             self.last_unsol = Some(bytes.clone());
                         }
-                        other => self.out.fail(Fail::new("response-function", format!("transmitted fragment with function {other}"))),
+                        other => self.out.fail(Fail::new(
+                            "response-function",
+                            format!("transmitted fragment with function {other}"),
+                        )),
                     }
                     frags.push(f);
                 }
@@ -327,26 +412,71 @@ async fn run_case(case: &Case) -> CaseOut {
     let mut rig = OutRig::start(cfg, AppBehaviour::default()).await;
     let mut points = vec![];
     for i in 0..6u16 {
-        points.push(PointSpec { ty: 0, index: i, class: 1, svar: 2, evar: 2 });
-        points.push(PointSpec { ty: 5, index: i, class: 2, svar: 1, evar: 1 });
-        points.push(PointSpec { ty: 3, index: i, class: 3, svar: 1, evar: 1 });
-        points.push(PointSpec { ty: 2, index: i, class: 1, svar: 2, evar: 1 });
-        points.push(PointSpec { ty: 6, index: i, class: 2, svar: 1, evar: 1 });
+        points.push(PointSpec {
+            ty: 0,
+            index: i,
+            class: 1,
+            svar: 2,
+            evar: 2,
+        });
+        points.push(PointSpec {
+            ty: 5,
+            index: i,
+            class: 2,
+            svar: 1,
+            evar: 1,
+        });
+        points.push(PointSpec {
+            ty: 3,
+            index: i,
+            class: 3,
+            svar: 1,
+            evar: 1,
+        });
+        points.push(PointSpec {
+            ty: 2,
+            index: i,
+            class: 1,
+            svar: 2,
+            evar: 1,
+        });
+        points.push(PointSpec {
+            ty: 6,
+            index: i,
+            class: 2,
+            svar: 1,
+            evar: 1,
+        });
     }
     rig.db(|db| {
         for p in &points {
             add_point(db, p);
         }
     });
-    let mut ck = Checker { case, out: CaseOut::default(), last_unsol: None, last_sol: None };
+    let mut ck = Checker {
+        case,
+        out: CaseOut::default(),
+        last_unsol: None,
+        last_sol: None,
+    };
     ck.out.label(format!("state:{:?}", case.state));
     let mut serial = 0u32;
     let mut make_events = |rig: &OutRig, n: u32| {
         rig.db(|db| {
             for k in 0..n {
                 serial += 1;
-                let r = unique_rec(if k % 2 == 0 { 0 } else { 5 }, (k % 6) as u16, serial, serial, 0);
-                update_point(db, &r, crate::outstation::database::UpdateOptions::detect_event());
+                let r = unique_rec(
+                    if k % 2 == 0 { 0 } else { 5 },
+                    (k % 6) as u16,
+                    serial,
+                    serial,
+                    0,
+                );
+                update_point(
+                    db,
+                    &r,
+                    crate::outstation::database::UpdateOptions::detect_event(),
+                );
             }
         });
     };
@@ -356,14 +486,21 @@ async fn run_case(case: &Case) -> CaseOut {
     let tx = rig.take_tx();
     let startup = ck.check(tx, None);
     if case.unsolicited {
-        let null = startup.iter().rev().find(|f| f.func == func::UNSOLICITED_RESPONSE).cloned();
+        let null = startup
+            .iter()
+            .rev()
+            .find(|f| f.func == func::UNSOLICITED_RESPONSE)
+            .cloned();
         match (&case.state, null) {
             (State::UnsolWaitNull, _) => {}
             (_, Some(n)) => {
                 rig.send(&Fragment::confirm(n.seq, true));
                 rig.settle().await;
             }
-            (_, None) => ck.out.fail(Fail::new("no-null-unsolicited", "unsolicited enabled but no null unsolicited response at start-up")),
+            (_, None) => ck.out.fail(Fail::new(
+                "no-null-unsolicited",
+                "unsolicited enabled but no null unsolicited response at start-up",
+            )),
         }
     }
     match case.state {
@@ -386,7 +523,10 @@ async fn run_case(case: &Case) -> CaseOut {
             rig.settle().await;
             let tx = rig.take_tx();
             let f = ck.check(tx, None);
-            if !f.iter().any(|f| f.func == func::UNSOLICITED_RESPONSE && !f.objects.is_empty()) {
+            if !f
+                .iter()
+                .any(|f| f.func == func::UNSOLICITED_RESPONSE && !f.objects.is_empty())
+            {
                 ck.out.label("setup_failed");
             }
         }
@@ -400,7 +540,11 @@ async fn run_case(case: &Case) -> CaseOut {
         let mut objects = vec![];
         let mut kinds = vec![];
         // a truncated header is only truncated if nothing follows it: such headers go last (at most one is kept)
-        let mut ordered: Vec<&HSpec> = req.headers.iter().filter(|h| h.kind != HKind::Truncated).collect();
+        let mut ordered: Vec<&HSpec> = req
+            .headers
+            .iter()
+            .filter(|h| h.kind != HKind::Truncated)
+            .collect();
         if let Some(t) = req.headers.iter().find(|h| h.kind == HKind::Truncated) {
             ordered.push(t);
         }
@@ -411,7 +555,16 @@ async fn run_case(case: &Case) -> CaseOut {
                 kinds.push(k);
             }
         }
-        let frag = Fragment { fir: req.fir, fin: req.fin, con: req.con, uns: req.uns, seq: req.seq, func: req.func, iin: None, objects };
+        let frag = Fragment {
+            fir: req.fir,
+            fin: req.fin,
+            con: req.con,
+            uns: req.uns,
+            seq: req.seq,
+            func: req.func,
+            iin: None,
+            objects,
+        };
         let bytes = frag.encode();
         if bytes.len() > 2048 {
             continue;
@@ -435,7 +588,18 @@ async fn run_case(case: &Case) -> CaseOut {
             ck.out.label("echo_exceeds_tx");
             ck.out.nontrivial = true;
         }
-        ck.out.label(format!("func:{}", if executes(req.func) { "executed" } else if req.func == 0 { "confirm" } else if is_known_function(req.func) { "known_unsupported" } else { "unknown" }));
+        ck.out.label(format!(
+            "func:{}",
+            if executes(req.func) {
+                "executed"
+            } else if req.func == 0 {
+                "confirm"
+            } else if is_known_function(req.func) {
+                "known_unsupported"
+            } else {
+                "unknown"
+            }
+        ));
 
         rig.send_fragment(&bytes);
         rig.settle().await;
@@ -448,10 +612,16 @@ async fn run_case(case: &Case) -> CaseOut {
             let tx = rig.take_tx();
             replies.extend(ck.check(tx, Some(req.seq)));
         }
-        let answers: Vec<&Fragment> = replies.iter().filter(|f| f.func == func::RESPONSE && f.fir && f.seq == req.seq).collect();
+        let answers: Vec<&Fragment> = replies
+            .iter()
+            .filter(|f| f.func == func::RESPONSE && f.fir && f.seq == req.seq)
+            .collect();
         // in the solicited confirm wait a CONFIRM carrying the expected number legitimately releases the next fragment (fir = 0)
         // a fragment carrying a response function code is not a request at all: not judged
-        let must_reject = !no_reply_func && req.func != 129 && req.func != 130 && (!flags_ok || bad_headers > 0 || !executes(req.func));
+        let must_reject = !no_reply_func
+            && req.func != 129
+            && req.func != 130
+            && (!flags_ok || bad_headers > 0 || !executes(req.func));
         if must_reject {
             match answers.first() {
                 None => ck.out.fail(
@@ -475,8 +645,19 @@ async fn run_case(case: &Case) -> CaseOut {
                 }
             }
         }
-        if no_reply_func && flags_ok && bad_headers == 0 && !(req.func == 0 && !kinds.is_empty()) && !answers.is_empty() {
-            ck.out.fail(Fail::new("reply-to-no-reply-function", format!("function {} must not be answered, got {:?}", req.func, answers[0])));
+        if no_reply_func
+            && flags_ok
+            && bad_headers == 0
+            && !(req.func == 0 && !kinds.is_empty())
+            && !answers.is_empty()
+        {
+            ck.out.fail(Fail::new(
+                "reply-to-no-reply-function",
+                format!(
+                    "function {} must not be answered, got {:?}",
+                    req.func, answers[0]
+                ),
+            ));
         }
     }
     if let Some(f) = rig.task_failure.take() {
